@@ -479,8 +479,7 @@ Definition M_row_dtype (t : tb A) : option dtype :=
   end.
 
 (* Frame.reindex(index=, columns=) (frame.py:3001-3067) -> resize_blocks; the both-axes path is
-   type_blocks.py:728-772.  DOMAIN: the both-axes path is modelled only when the row labels have
-   something in common or the column labels have nothing in common (see Refuted/C11.v). *)
+   type_blocks.py:728-772 (has_common consulted per axis since fix 658b4ce). *)
 Definition M_reindex_both (filldt : dtype) (fill : A) (f : frame) (idx cols : list L) : frame :=
   let ieq := labels_eqb (f_index f) idx in
   let ceq := labels_eqb (f_columns f) cols in
@@ -548,8 +547,9 @@ Fixpoint M_overlay_fold (post : frame) (rest : list frame) : res frame :=
   | [] => Ok post
   | f :: r =>
       t <- M_from_blocks (M_fillna_blocks (f_blocks post) (M_overlay_values post f)) ;;
-      (* `if not post.isna().any().any(): break` (frame.py:598): the reduction raises on a frame without rows *)
-      if is_nil (f_index post) then Err "AttributeError"
+      (* `if not post.isna().any().any(): break` (frame.py:598): the reduction raises on a frame without rows
+         held in a single block (TypeBlocks.ufunc_axis_skipna, unified path, type_blocks.py:860-863) *)
+      if is_nil (f_index post) && (length t =? 1)%nat then Err "AttributeError"
       else M_overlay_fold (mk_frame (f_index post) (f_columns post) t) r
   end.
 
